@@ -417,6 +417,7 @@ macro_rules | `(tactic| safe_step) => `(tactic| (guard_world_lit; with_reducible
 macro_rules | `(tactic| safe_step) => `(tactic| (guard_world_lit; with_reducible refine Safe.setBufsSet ?_ _ _ (by stat_side)))
 macro_rules | `(tactic| safe_step) => `(tactic| (guard_world_lit; with_reducible refine Safe.setResModify ?_ _ _ (fun _ => rfl)))
 macro_rules | `(tactic| safe_step) => `(tactic| (guard_world_lit; with_reducible refine Safe.setResSet ?_ _ _ (by stat_side)))
+macro_rules | `(tactic| safe_step) => `(tactic| (guard_world_lit; with_reducible refine Safe.setPoolsModify ?_ _ _ (fun _ => rfl) (fun _ => rfl)))
 macro_rules | `(tactic| safe_step) => `(tactic| split)
 macro_rules | `(tactic| safe_step) => `(tactic| with_reducible apply Safe.signal)
 macro_rules | `(tactic| safe_step) => `(tactic| with_reducible apply Safe.guardRemove_fst)
